@@ -14,9 +14,12 @@ import (
 	"fmt"
 	"io"
 	"net"
+	"net/url"
 	"os"
 	"sync"
 	"time"
+
+	"golang.org/x/net/proxy"
 )
 
 type vVector struct {
@@ -370,4 +373,32 @@ func vLockHeld(mu interface{}) bool {
 		return c.vHeld()
 	}
 	panic("vLockHeld: native replay needs the counting mutex overlay")
+}
+
+// Executor-only observers (neutral natively).
+func vPendingGo() int                   { return -1 } // goroutines spawned and not yet run
+func vDropPending()                     {}            // forget them (the harness is done with the connection)
+func vEventStr(kind string, i int) string { return "" }
+
+// vDialer is a proxy dialer for the harness-only URL scheme "vtest": it records
+// the address it is asked to dial and hands out the in-memory wire (or fails).
+type vDialer struct {
+	addrs []string
+	wire  *vWire
+	fail  bool
+}
+
+func (d *vDialer) Dial(network, addr string) (net.Conn, error) {
+	d.addrs = append(d.addrs, addr)
+	if d.fail {
+		return nil, errors.New("vDialer: refused")
+	}
+	return d.wire, nil
+}
+
+var vTheDialer *vDialer
+
+func vInstallDialer(d *vDialer) {
+	vTheDialer = d
+	proxy.RegisterDialerType("vtest", func(*url.URL, proxy.Dialer) (proxy.Dialer, error) { return vTheDialer, nil })
 }
